@@ -642,6 +642,60 @@ pub fn direct_oracle(line: &str, trace: &str) -> Vec<String> {
             }
         }
     }
+    // C02: a delivery the sender has settled - on its first frame or on a later one - is settled: the receiver writes no
+    // disposition for it and does not keep it
+    if !faulty {
+        let mut sender_settled: Vec<u32> = Vec::new();
+        let mut cur: Option<u32> = None;
+        let mut cur_settled = false;
+        for e in &evs {
+            if e[0] == "t" {
+                let w: Vec<&str> = e.iter().map(|x| x.as_str()).collect();
+                if cur.is_none() {
+                    cur = opt_u32(field(&w, "did"));
+                    cur_settled = false;
+                }
+                if field(&w, "set") == "1" {
+                    cur_settled = true;
+                }
+                if field(&w, "ab") == "1" {
+                    cur = None;
+                } else if field(&w, "more") == "0" {
+                    if let Some(d) = cur.take() {
+                        if cur_settled {
+                            sender_settled.push(d);
+                        }
+                    }
+                }
+            }
+        }
+        for st in &steps {
+            let mut rest_tok: &str = st;
+            while let Some(pos) = rest_tok.find("P(") {
+                let inner = &rest_tok[pos + 2..];
+                let end = inner.find(')').unwrap_or(inner.len());
+                let parts: Vec<&str> = inner[..end].split(',').collect();
+                if parts.len() == 3 {
+                    let f: u32 = parts[0].parse().unwrap_or(0);
+                    let l: u32 = if parts[1] == "-" { f } else { parts[1].parse().unwrap_or(f) };
+                    for d in &sender_settled {
+                        if f <= *d && *d <= l {
+                            v.push(format!("c02-disposition-for-settled: the sender settled delivery {} (on one of its frames), yet the receiver wrote a disposition for it", d));
+                        }
+                    }
+                }
+                rest_tok = &inner[end..];
+            }
+        }
+        if let Some(u) = fin.split("unsettled=[").nth(1) {
+            let tags: Vec<u32> = u.trim_end_matches(|c| c == ']' || c == ' ').split(',').filter_map(|x| x.parse().ok()).collect();
+            for d in &sender_settled {
+                if tags.contains(d) {
+                    v.push(format!("c02-receiver-retained-settled: delivery {} was settled by the sender on one of its frames and is still in the receiver's unsettled map", d));
+                }
+            }
+        }
+    }
     // C16/C01: with cancellations anywhere, what the completed recv() calls return is a prefix of what was sent completely, in order
     if !faulty {
         let mut sent_complete: Vec<u32> = Vec::new();
@@ -740,7 +794,16 @@ fn delivery_frames(r: &mut Rng, did: u32, settled: Option<bool>, rsm: Option<boo
                 t = Some(did.wrapping_add(1));
             }
         }
-        let set = if first { settled } else if r.below(2) == 0 { settled } else { None };
+        // a later frame may settle a delivery whose first frame did not (a later `true` overrides)
+        let set = if first {
+            settled
+        } else if settled != Some(true) && r.below(6) == 0 {
+            Some(true)
+        } else if r.below(2) == 0 {
+            settled
+        } else {
+            None
+        };
         if abort_at == Some(i) {
             frames.push(tline(d, t, f, set, r.below(2) == 0, rsm, true, if r.below(2) == 0 { chunk } else { &[] }));
             return frames;
